@@ -583,3 +583,31 @@ func zzvCheckMisc(d *Disassembler, inst *Inst, ft FormatType, row *InstType, w u
 		verif.Assert(inst.Clamp == b(15), "VOP3b CLAMP differs from bit 15: "+tag)
 	}
 }
+
+// ---- exported helpers for the ALU harnesses (other packages) ----
+
+// ZzvRows returns every decode-table row ordered by (format, opcode).
+func ZzvRows() []*InstType { return zzvRows }
+
+// ZzvEncode builds the 8-byte little-endian instruction word of a row with the
+// given field values (fields not mentioned are zero).
+func ZzvEncode(row *InstType, vals map[string]uint64) []byte {
+	f := row.Format
+	word := make([]byte, 12)
+	zzvPut(word, 0, 0, uint64(f.Encoding))
+	zzvPut(word, f.OpcodeLow, f.OpcodeHigh, uint64(row.Opcode)&((1<<(f.OpcodeHigh-f.OpcodeLow+1))-1))
+	for _, fl := range zzvFields[f.FormatType] {
+		if v, ok := vals[fl.name]; ok {
+			zzvPut(word, fl.lo, fl.hi, v&(uint64(1)<<(fl.hi-fl.lo+1)-1))
+		}
+	}
+	return word
+}
+
+// ZzvDecode decodes with the GCN3 or CDNA3 flavour of the shared decoder.
+func ZzvDecode(buf []byte, cdna3 bool) (*Inst, error) {
+	if cdna3 {
+		return zzvDisCDNA3.Decode(buf)
+	}
+	return zzvDis.Decode(buf)
+}
